@@ -200,9 +200,19 @@ func (cd *codeStore) AddASbx(op int, a int, sbx int, line int) {
 	cd.Add(opCreateASbx(op, a, sbx), line)
 }
 
+// lastIsData reports whether the last word is the batch number that follows an extended SETLIST (C == 0)
+// rather than an instruction; such a word may look like a MOVE but must never be folded away.
+func (cd *codeStore) lastIsData() bool {
+	if cd.pc < 2 {
+		return false
+	}
+	prev := cd.At(cd.pc - 2)
+	return opGetOpCode(prev) == OP_SETLIST && opGetArgC(prev) == 0
+}
+
 func (cd *codeStore) PropagateKMV(top int, save *int, reg *int, inc int) {
 	lastinst := cd.Last()
-	if opGetArgA(lastinst) >= top {
+	if opGetArgA(lastinst) >= top && !cd.lastIsData() {
 		switch opGetOpCode(lastinst) {
 		case OP_LOADK:
 			cindex := opGetArgBx(lastinst)
@@ -223,7 +233,7 @@ func (cd *codeStore) PropagateKMV(top int, save *int, reg *int, inc int) {
 
 func (cd *codeStore) PropagateMV(top int, save *int, reg *int, inc int) {
 	lastinst := cd.Last()
-	if opGetArgA(lastinst) >= top {
+	if opGetArgA(lastinst) >= top && !cd.lastIsData() {
 		switch opGetOpCode(lastinst) {
 		case OP_MOVE:
 			cd.Pop()
